@@ -547,7 +547,7 @@ def vector_of(w, e: ast.AST, depth: int = 4):
 def run(index: RepoIndex, rep) -> None:
     rep.rule('C15.R8', 'row and column quantities are not exchanged in the representations (axis typing, E14)', floor=1)
     from ..axes import axis_rule
-    axis_rule(index, rep, 'C15.R8', ('gym_gridverse/representations/', 'gym_gridverse/spaces.py'), floor=25)
+    axis_rule(index, rep, 'C15.R8', ('gym_gridverse/representations/', 'gym_gridverse/spaces.py'), floor=12)
     rep.rule('C15.R1', 'per-object bounds: 0 <= channel <= bound (affine proof); state_index < '
              'num_states per class; compact bounded by map maxima', floor=20)
     rep.rule('C15.R2', 'the type/colour sets handed to space and convert agree and include '
